@@ -449,6 +449,52 @@ def fam_static_store(tier, rng):
 FAMILIES.append(fam_static_store)
 
 
+def fam_static_byref_places(tier, rng):
+    """elements, record members and fixed-length strings handed one after the other to the SAME procedure (STATIC or not), which
+    changes its parameters: every place gets the value of ITS call, cut / padded to its own length"""
+    out = []
+    for static in (True, False):
+        for place in ("fix-el", "rec-fix", "rec-int", "int-el", "fix-scalar"):
+            for ncalls in (2, 3):
+                b = B()
+                n = var("N", "I")
+                body = [b.let(n, bin_("+", n, lit("I", 1))), b.let(var("CNT", "I"), bin_("+", var("CNT", "I"), lit("I", 10))),
+                        b.let(var("TGT", "$"), bin_("+", lit("$", "call-too-long"), lit("$", "!")))]
+                main, shows = [], []
+                if place in ("rec-fix", "rec-int"):
+                    main.append(b.dim("TB", "U", [dimspec(1, 3)], ty="REC"))
+                elif place == "fix-el":
+                    main.append(b.dim("PL", "$", [dimspec(1, 3)], fix=5))
+                elif place == "int-el":
+                    main.append(b.dim("IA", "I", [dimspec(1, 3)]))
+                else:
+                    main += [b.dim("F1", "$", fix=3), b.dim("F2", "$", fix=6), b.dim("F3", "$", fix=1)]
+                main.append(b.dim("ST", "$", [dimspec(1, 3)]))
+                for i in range(1, ncalls + 1):
+                    ii = lit("I", i)
+                    if place == "rec-fix":
+                        t_, c_ = fld(idx("TB", "U", [ii]), "S", "$", 4), fld(idx("TB", "U", [ii]), "A", "I")
+                    elif place == "rec-int":
+                        t_, c_ = idx("ST", "$", [ii]), fld(idx("TB", "U", [ii]), "A", "I")
+                    elif place == "fix-el":
+                        t_ = idx("PL", "$", [ii]); t_["bare"] = True
+                        c_ = var("M%d" % i, "I")
+                    elif place == "int-el":
+                        t_, c_ = idx("ST", "$", [ii]), idx("IA", "I", [ii])
+                    else:
+                        t_ = var("F%d" % i, "$"); t_["bare"] = True
+                        c_ = var("M%d" % i, "I")
+                    main += [b.let(c_, lit("I", i * 100)), b.call("STAMP", [t_, c_])]
+                    shows += [lit("$", "["), t_, lit("$", "]"), c_]
+                main.append(b.print(*shows))
+                subs = [sub("STAMP", [("TGT", "$"), ("CNT", "I")], body, static=static)]
+                out.append({"fam": "byref-places:%s/%s/%d" % ("static" if static else "plain", place, ncalls), "prog": prog(main, subs, types=TYPES)})
+    return out
+
+
+FAMILIES.append(fam_static_byref_places)
+
+
 def cases(tier, seed):
     rng = random.Random(seed)
     out = []
